@@ -86,3 +86,23 @@ def _tx_signs(which):
 
 for _w in ("owner", "parents", "content", "output_keys", "output_contents"):
     const("pv_tx_signs_" + _w, "ant-protocol/src/storage/transaction.rs", _tx_signs(_w), ty="bool")
+
+
+
+# ---- which block the verifyPayment eth_call is evaluated against (evmlib handler.rs), C03
+def _verify_payment_at_latest(src):
+    body = src.split("pub async fn verify_payment<", 1)[1]
+    call = re.search(r"\.verifyPayment\(payment_verifications\)(.*?)\.call\(\)", body, re.S)
+    if not call:
+        raise ValueError("verify_payment: the verifyPayment(..).call() chain is not recognised")
+    between = call.group(1).strip()
+    if between == "":
+        return True                      # alloy's default block for eth_call: latest
+    if re.fullmatch(r"\.block\(BlockId::latest\(\)\)", between):
+        return True
+    if re.fullmatch(r"\.block\(BlockId::pending\(\)\)", between):
+        return False
+    raise ValueError("verify_payment: unrecognised call modifier %r" % between)
+
+
+const("pv_verify_payment_at_latest", "evmlib/src/contract/payment_vault/handler.rs", _verify_payment_at_latest, ty="bool")
